@@ -20,7 +20,8 @@ def _line_of(path, func):
 
 def run_conditions(path, funcs, timeout_s, extra_env=None, max_parallel=16):
     env = dict(os.environ)
-    env["PYTHONPATH"] = "/verif:/repo" + (":" + env["PYTHONPATH"] if env.get("PYTHONPATH") else "")
+    # an explicit PYTHONPATH (dev: a patched scratch worktree) takes precedence over /repo
+    env["PYTHONPATH"] = "/verif" + (":" + env["PYTHONPATH"] if env.get("PYTHONPATH") else "") + ":/repo"
     env["PYTHONHASHSEED"] = "0"
     env.setdefault("JAX_PLATFORMS", "cpu")
     if extra_env:
